@@ -150,6 +150,8 @@ class SInt(SVal):
             return False
         if isinstance(o, SOpt):
             return SBool(z3.And(z3.Not(o.isnone), self.e == o.val))
+        if isinstance(o, SEnum):
+            return o.__eq__(self)
         return SBool(self.e == _ie(o))
 
     def __ne__(self, o):
@@ -222,6 +224,13 @@ class SOpt(SVal):
     __hash__ = None
 
 
+def _same(a, b):
+    try:
+        return type(a) is type(b) and a == b or (isinstance(a, (int, str)) and isinstance(b, (int, str)) and a == b)
+    except Exception:
+        return False
+
+
 class SEnum(SVal):
     """table[idx] with a concrete table and symbolic idx in range."""
     __slots__ = ("idx", "table")
@@ -277,11 +286,34 @@ class SEnum(SVal):
         return self
 
     def __eq__(self, o):
-        if isinstance(o, SEnum) and z3.eq(o.idx, self.idx):
-            return SBool(z3.Or(*([self.idx == i for i, (a, b) in enumerate(zip(self.table, o.table)) if a == b] or [z3.BoolVal(False)])))
+        if isinstance(o, SEnum):
+            if z3.eq(o.idx, self.idx):
+                hits = [self.idx == i for i, (a, b) in enumerate(zip(self.table, o.table)) if _same(a, b)]
+                return SBool(z3.Or(*hits) if hits else z3.BoolVal(False))
+            if self.table is o.table or (len(self.table) == len(o.table) and all(_same(a, b) for a, b in zip(self.table, o.table))):
+                groups = {}
+                for i, t in enumerate(self.table):
+                    try:
+                        groups.setdefault(t, []).append(i)
+                    except TypeError:
+                        groups.setdefault(id(t), []).append(i)
+                dups = [g for g in groups.values() if len(g) > 1]
+                e = self.idx == o.idx
+                if dups:
+                    e = z3.Or(e, *[z3.And(z3.Or(*[self.idx == i for i in g]), z3.Or(*[o.idx == i for i in g])) for g in dups])
+                return SBool(e)
+            if len(self.table) * len(o.table) <= 4096:
+                hits = [z3.And(self.idx == i, o.idx == j) for i, a in enumerate(self.table) for j, b in enumerate(o.table) if _same(a, b)]
+                return SBool(z3.Or(*hits) if hits else z3.BoolVal(False))
+            raise Unsupported("equality of two large symbolic table lookups")
         if is_sym(o):
+            if not all(isinstance(t, int) for t in self.table):
+                if isinstance(o, (SInt, SBool)):
+                    hits = [z3.And(self.idx == i, _ie(o) == (int(t))) for i, t in enumerate(self.table) if isinstance(t, int)]
+                    return SBool(z3.Or(*hits) if hits else z3.BoolVal(False))
+                return SBool(z3.BoolVal(False))
             return SBool(self.as_int().e == _ie(o))
-        return SBool(self.cond_for(lambda t: t == o))
+        return SBool(self.cond_for(lambda t: _same(t, o)))
 
     def __ne__(self, o):
         return SBool(z3.Not(self.__eq__(o).e))
